@@ -666,10 +666,19 @@ impl<'a> Gram<'a> {
                 if i > 0 {
                     args.push(t(","));
                 }
-                let a = match self.rng.below(3) {
-                    0 => n("DagArg", vec![t(self.rng.pick_str(&VAR_POOL))]),
-                    1 => n("DagArg", vec![self.value(depth + 1)]),
-                    _ => n("DagArg", vec![self.value(depth + 1), t(":"), n("VarName", vec![t(self.rng.pick_str(&VAR_POOL))])]),
+                // directly after an operator without `:$name`, a value starting with `[` or `{` would
+                // read as a slice / bit-range suffix of the operator
+                let op_named = ch.last().map(|d| d.token_vec().last().map(|x| x.starts_with('$')).unwrap_or(false)).unwrap_or(false);
+                let a = loop {
+                    let a = match self.rng.below(3) {
+                        0 => n("DagArg", vec![t(self.rng.pick_str(&VAR_POOL))]),
+                        1 => n("DagArg", vec![self.value(depth + 1)]),
+                        _ => n("DagArg", vec![self.value(depth + 1), t(":"), n("VarName", vec![t(self.rng.pick_str(&VAR_POOL))])]),
+                    };
+                    let first = a.token_vec().first().cloned().unwrap_or_default();
+                    if i > 0 || op_named || !matches!(first.as_str(), "[" | "{" | "." | "#") {
+                        break a;
+                    }
                 };
                 args.push(a);
             }
